@@ -232,7 +232,7 @@ def summarize(plan, res):
 
 # ------------------------------------------------------------------ second scenario class: values through the efun surface
 EFUN_BLACKLIST = set('''call_other clone_object new bind destruct call_out input_to get_char move_object add_action command remove_action disable_commands
-enable_commands set_living_name notify_fail restore_object save_object write tell_object shout receive message say tell_room load_object replace_program
+enable_commands set_living_name notify_fail restore_object save_object write tell_object shout receive message say tell_room load_object
 write_file rename write_bytes write_buffer cp link mkdir rm rmdir exec set_heart_beat set_hide set_reset snoop throw printf enable_wizard disable_wizard
 reload_object error flush_messages ed dumpallobj reclaim_objects set_eval_limit reset_eval_cost eval_cost max_eval_cost shutdown store_variable
 remove_interactive debug_message dump_prog moncontrol seteuid export_uid resolve tail remove_call_out find_object this_object evaluate in_edit
